@@ -33,6 +33,11 @@ DATE_FORMATS = ["LTS", "LT", "L", "LL", "LLL", "LLLL"]
 EXN = {1: "ValueError", 2: "TypeError", 3: "OverflowError", 4: "IndexError", 6: "AttributeError", 7: "KeyError", 15: "Unmodelled"}
 FLAGS = [(inv, now, ab) for inv in (0, 1) for now in (0, 1) for ab in (0, 1)]
 ZONES = ["UTC", "Europe/Paris", "America/New_York", "Pacific/Kiritimati", "Asia/Kolkata"]
+# cross-zone pairs: offsets that are negative and not whole hours (St_Johns -03:30/-02:30, Marquesas -09:30, Caracas -04:30 in 2007..2016, LMT before
+# the 1880s), positive odd ones, both ends of the range; an int is a fixed offset in seconds (pendulum.timezone(int), named "+HH:MM")
+XZONES = ZONES + ["America/St_Johns", "Pacific/Marquesas", "America/Caracas", "Asia/Kathmandu", "Australia/Lord_Howe", "Pacific/Chatham",
+                  -12600, -34200, -900, 900, 20700, -86340, 86340, 50400, -43200, -16200, 3600]
+NEG_ODD = ["America/St_Johns", "Pacific/Marquesas", -12600, -900, -16200, -86340]
 
 
 # ----------------------------------------------------------------------------- locale files, read with ast (never imported)
@@ -109,6 +114,136 @@ def _boundary_records(rnd, tier):
     return sorted(set(full + extra))
 
 
+
+# ----------------------------------------------------------------------------- sessions: the process-wide default locale as a state machine
+# unknown names: not shipped, and not turned into a shipped name by Locale.normalize_locale (which only looks at the first five characters
+# of an xx-yy / xx_yy name); ASCII letters, '-' and '_' only
+UNKNOWN_NAMES = ["tlh", "xx", "xx_YY", "xx-yy", "fr_ca", "de_AT", "eng", "english", "e", "EN_", "en-", "zz_zz", "français".encode("ascii", "ignore").decode(),
+                 "pt", "pt_pt", "ptbr", "no", "uk", "cz", "zh_cn", "en_u", "C", "POSIX", "klingon"]
+
+
+def _norm_name(name):
+    """the documented normal form of a locale name: case-insensitive, '-' or '_' between language and territory"""
+    m = re.match(r"([A-Za-z]{2})[-_]([A-Za-z]{2})", name)
+    if m:
+        return (m.group(1) + "_" + m.group(2)).lower()
+    return name.lower()
+
+
+def _aliases(loc, rnd):
+    """spellings of a shipped name that must load the same locale"""
+    out = [loc, loc.upper(), loc.capitalize()]
+    if "_" in loc:
+        a, b = loc.split("_")
+        out += [a + "-" + b, a + "-" + b.upper(), a.upper() + "_" + b, a + "_" + b.upper()]
+    return out
+
+
+def _render_ops(rnd, loc, year):
+    """one of each kind of rendering call; loc None = no locale argument (the configured locale is used)"""
+    rec = rnd.choice([[0, 0, 0, 3, 0, 0, 0], [0, 2, 0, 0, 0, 0, 0], [1, 7, 0, 0, 0, 0, 0], [0, 0, 2, 4, 0, 0, 0], [0, 0, 0, 0, 5, 1, 0], [0, 0, 0, 0, 0, 42, 0],
+                      [0, 0, 0, 0, 0, 0, 30], [0, 0, 0, 0, 0, 0, 3], [0, 11, 2, 3, 0, 0, 0], [0, 0, 0, 1, 22, 0, 0], [21, 0, 0, 0, 0, 0, 0], [0, 0, 0, 0, 101, 0, 0]])
+    inv, now, ab = rnd.choice(FLAGS)
+    wrec = [rnd.choice([0, 0, 1, 2, 5, 21]) for _ in range(7)]
+    st = [rnd.randrange(1990, 2040), rnd.randrange(1, 13), rnd.randrange(1, 29), rnd.randrange(24), rnd.randrange(60), rnd.randrange(60)]
+    span = rnd.choice([5, 42, 3000, 18060, 3 * 86400, 9 * 86400 + 7200, 70 * 86400, 800 * 86400])
+    return [["fmt", loc, rec, inv, now, ab],
+            ["words", loc, wrec, rnd.choice([0, 0, 125000]), rnd.choice([" ", ", "]), rnd.choice(["D", "I"])],
+            ["tok", loc, rnd.randrange(len(TOKENS)), year, rnd.randrange(1, 13), rnd.randrange(1, 29), rnd.choice([3, 15])],
+            ["dfh", loc, rnd.choice(["dt", "dt", "date", "time"]), st, span, rnd.choice(ZONES), rnd.choice([0, 1]), rnd.choice([0, 0, 1])],
+            ["str", [rnd.choice([0, 1]), rnd.choice([0, 2]), 0, rnd.randrange(0, 9), rnd.randrange(0, 24), rnd.randrange(0, 60), rnd.randrange(0, 60)]]]
+
+
+def _sessions(tier, seed, rnd, locs):
+    """Each session is ONE case: the whole operation sequence runs in the process, so a replay is self-contained.  Every session starts by
+    setting the locale explicitly (it does not depend on what ran before) and the harness restores the previous configuration afterwards."""
+    out = []
+    year = 2000 + seed % 25
+    unknown = [n for n in UNKNOWN_NAMES if _norm_name(n) not in locs]
+    # deterministic pattern per shipped locale: set it, render, try names that are REJECTED (str and non-str), render again, read it back
+    for li, loc in enumerate(locs):
+        alias = rnd.choice(_aliases(loc, rnd))
+        other = locs[(li + 7) % len(locs)]
+        ops = [["set", "en"], ["set", alias], ["get"]] + _render_ops(rnd, None, year)
+        ops += [["set", rnd.choice(unknown)], ["get"]] + _render_ops(rnd, None, year)
+        ops += [["load", rnd.choice(unknown)], ["setbad", rnd.choice(["none", "int", "bytes", "list"])], ["set", unknown[(li + seed) % len(unknown)]]]
+        ops += [["get"]] + _render_ops(rnd, None, year)[:3] + _render_ops(rnd, other, year)[:3] + [["get"], ["fmt", None, [0, 0, 0, 0, 0, 0, 5], 1, 1, 0]]
+        out.append(ops)
+    # the shortest histories: a rejected call right after the default, or after one successful set (the usual "try the user's locale, keep the
+    # current one on ValueError" pattern), then ONE call that relies on the configured locale
+    shorts = []
+    for i, name in enumerate(n for n in UNKNOWN_NAMES if _norm_name(n) not in locs):
+        r1 = _render_ops(rnd, None, year)
+        shorts.append([["set", "en"], ["set", name], r1[i % 3]])
+        shorts.append([["set", locs[(i * 5 + seed) % len(locs)]], ["set", name], r1[(i + 1) % 3], ["get"]])
+        shorts.append([["set", "en"], ["setbad", ["none", "int", "bytes", "list"][i % 4]], r1[(i + 2) % 3], ["get"]])
+    out = shorts + out
+    # random histories
+    n = 40 if tier == "quick" else 600
+    for _ in range(n):
+        ops = [["set", "en"]]
+        for _k in range(rnd.randrange(6, 16)):
+            x = rnd.random()
+            good = rnd.choice(_aliases(rnd.choice(locs), rnd))
+            bad = rnd.choice(unknown)
+            if x < 0.18:
+                ops.append(["set", good])
+            elif x < 0.36:
+                ops.append(["set", bad])
+            elif x < 0.42:
+                ops.append(["setbad", rnd.choice(["none", "int", "bytes", "list"])])
+            elif x < 0.50:
+                ops.append(["load", rnd.choice([good, bad])])
+            elif x < 0.58:
+                ops.append(["get"])
+            else:
+                loc = None if rnd.random() < 0.7 else rnd.choice([good, good, bad])
+                ops.append(rnd.choice(_render_ops(rnd, loc, year)))
+        ops += [["get"]] + _render_ops(rnd, None, year)[:2]
+        out.append(ops)
+    return [{"stream": "session", "fn": "session", "args": [ops]} for ops in out]
+
+
+def _default_locale_cases(tier, seed, rnd):
+    """Calls WITHOUT a locale argument and without any set_locale of their own: whatever history the process has (the runner re-runs a sample of
+    the cases after rejected configuration calls and under a non-default configuration), the call must render exactly as the same call given
+    locale=get_locale().  The canonical result carries no phrase, so it is the same under every configured locale.  A contiguous block, so that
+    the runner's every-k-th sample always contains several of them."""
+    out = []
+    for _ in range(40):
+        items = []
+        for op in _render_ops(rnd, None, 2000 + seed % 25):
+            items.append(op)
+        out.append({"stream": "default-locale", "fn": "default_locale", "args": [items]})
+    return out
+
+
+def _chunks_by_region(items, size):
+    """batches that are homogeneous w.r.t. the listed findings' regions (predicates on the input), so that one batch reproduces at most one finding"""
+    groups = {}
+    for it in items:
+        groups.setdefault(_region(it) or "", []).append(it)
+    out = []
+    for g in sorted(groups):
+        for k in range(0, len(groups[g]), size):
+            out.append(groups[g][k:k + size])
+    return out
+
+
+def _listed_witnesses():
+    """deterministic inputs inside the regions of the listed findings (they re-confirm the finding on every run) and right next to them"""
+    return [
+        # interval-init-drops-fold: the reference is the SECOND 02:30 of 2012-10-28 in Paris, one hour / 70 minutes after the instance
+        [[2012, 10, 28, 0, 30, 0], 3600, "UTC", 0, 0, "Europe/Paris"], [[2012, 10, 28, 0, 30, 0], 3600, "America/New_York", 1, 0, "Europe/Paris"],
+        [[2012, 10, 28, 1, 30, 0], 4200, "Europe/Paris", 1, 1, "Asia/Kolkata"], [[2012, 10, 28, 0, 30, 0], 3600, "UTC", 0, 0, "UTC"],
+        # same-tzinfo-wall-order (C05): 02:45 first occurrence vs 02:15 second occurrence, same zone object
+        [[2012, 10, 28, 0, 45, 0], 1800, "Europe/Paris", 0, 0, "Europe/Paris"], [[2012, 10, 28, 0, 45, 0], 1800, "Europe/Paris", 1, 0, "Europe/Paris"],
+        # rs-cross-zone-shift (C06): the compiled helper's manual UTC shift leaves hour 24 / minute 60 / day 0
+        [[1968, 5, 1, 0, 1, 0], 1, "Europe/Paris", 0, 0, "America/New_York"], [[2008, 9, 28, 23, 0, 12], 11, -16200, 1, 0, 49500],
+        [[2021, 2, 28, 23, 30, 0], 31 * 86400 + 1800, 3600, 0, 0, "UTC"], [[2014, 9, 15, 23, 0, 59], 86400, "UTC", 0, 1, -900],
+    ]
+
+
 def cases(tier, seed):
     rnd = random.Random(seed)
     locs = locale_names()
@@ -166,8 +301,28 @@ def cases(tier, seed):
         items = []
         for st, s in mine:
             items.append([list(st), s, rnd.choice(ZONES), rnd.choice([0, 1]), rnd.choice([0, 0, 1])])
-        for k in range(0, len(items), 150):
-            out.append({"stream": "instants", "fn": "instants", "args": [li, loc, items[k:k + 150]]})
+        for chunk in _chunks_by_region(items, 150):
+            out.append({"stream": "instants", "fn": "instants", "args": [li, loc, chunk]})
+    # 6b. pairs of instants written in DIFFERENT zones (both operands are compared in UTC), second occurrences of repeated wall times
+    xz = []
+    for z in NEG_ODD:
+        for z2 in ("UTC", "Asia/Kolkata", "Europe/Paris", 50400):
+            for span in (0, 10, 61, 3000, 18060, 90000, 4 * 86400 + 7):
+                xz.append([[2020, 6, 15, 14, 30, 0], span, z, (len(xz) // 3) % 2, 0, z2])
+                xz.append([[2009, 1, 31, 23, 45, 10], span, z2, (len(xz) // 3) % 2, len(xz) % 2, z])
+    xz += _listed_witnesses()
+    for _ in range(500 if tier == "quick" else 6000):
+        st = [rnd.randrange(1900, 2090), rnd.randrange(1, 13), rnd.choice([1, 1, 2, 15, 27, 28, rnd.randrange(1, 29)]), rnd.choice([0, 0, 1, 5, 12, 22, 23, 23]),
+              rnd.choice([0, 1, 29, 30, 31, 59, rnd.randrange(60)]), rnd.choice([0, 1, 30, 59, rnd.randrange(60)])]
+        span = rnd.choice([1, 5, 9, 10, 11, 59, 60, 61, 3599, 3600, 3601, 7200, 18060, 86399, 86400, 86401, rnd.randrange(0, 4000), rnd.randrange(0, 90000),
+                           rnd.randrange(0, 28 * 86400), rnd.randrange(0, 28 * 86400), rnd.randrange(0, 400 * 86400), rnd.randrange(0, 5000 * 86400)])
+        z1 = rnd.choice(XZONES)
+        z2 = rnd.choice([z for z in XZONES if z != z1])
+        xz.append([st, span, z1, rnd.choice([0, 1]), rnd.choice([0, 0, 1]), z2])
+    for li, loc in enumerate(locs):
+        mine = xz if loc == "en" else _listed_witnesses() + rnd.sample(xz, 40 if tier == "quick" else 400)
+        for chunk in _chunks_by_region(mine, 150):
+            out.append({"stream": "instants-xz", "fn": "instants", "args": [li, loc, chunk]})
     # 7. real Duration objects (integer arguments) + glue (default locale, aliases, now)
     durs = []
     for _ in range(200 if tier == "quick" else 2000):
@@ -177,11 +332,14 @@ def cases(tier, seed):
         mine = durs if loc in ("en", "fr") or tier == "thorough" else rnd.sample(durs, 40)
         out.append({"stream": "durations", "fn": "durations", "args": [li, loc, mine]})
     out.append({"stream": "glue", "fn": "glue", "args": []})
+    # 8. the process-wide default locale: whole histories in one case, and calls that rely on the ambient configuration
+    out += _default_locale_cases(tier, seed, rnd)
+    out += _sessions(tier, seed, rnd, locs)
     return out
 
 
 def search_cases(seed):
-    return [c for c in cases("thorough", seed) if c["fn"] in ("fmt_grid", "fmt_batch", "tokens", "words_batch", "classes")]
+    return [c for c in cases("thorough", seed) if c["fn"] in ("fmt_grid", "fmt_batch", "tokens", "words_batch", "classes", "session", "default_locale")]
 
 
 def nontrivial(c):
@@ -271,9 +429,11 @@ def impl_run(cases):
             elif fn == "instants":
                 li, loc, items = a
                 res = [0]
-                for st, s, zone, swap, ab in items:
-                    x = pendulum.datetime(*st, tz="UTC").in_timezone(zone)
-                    y = x.add(seconds=s)
+                for it in items:
+                    st, s, zone, swap, ab = it[:5]
+                    zone2 = it[5] if len(it) > 5 else zone
+                    x = pendulum.datetime(*st, tz="UTC").in_timezone(pendulum.timezone(zone))
+                    y = x.add(seconds=s).in_timezone(pendulum.timezone(zone2))
                     if swap:
                         x, y = y, x
                     d = x.diff(y)
@@ -283,8 +443,8 @@ def impl_run(cases):
                                 cs, int(d.invert),
                                 guard(lambda: x.date().diff_for_humans(y.date(), absolute=bool(ab), locale=loc)), comps(x.date().diff(y.date())),
                                 guard(lambda: x.time().diff_for_humans(y.time(), absolute=bool(ab), locale=loc)),
-                                [x.year, x.month, x.day, x.hour, x.minute, x.second, int(x.utcoffset().total_seconds())],
-                                [y.year, y.month, y.day, y.hour, y.minute, y.second, int(y.utcoffset().total_seconds())],
+                                [x.year, x.month, x.day, x.hour, x.minute, x.second, int(x.utcoffset().total_seconds()), x.fold],
+                                [y.year, y.month, y.day, y.hour, y.minute, y.second, int(y.utcoffset().total_seconds()), y.fold],
                                 guard(lambda: d.in_words(locale=loc)), guard(lambda: Interval.in_words(D(cs, 0, d.microseconds), loc))])
                 out.append(res)
             elif fn == "durations":
@@ -317,6 +477,73 @@ def impl_run(cases):
                 res.append(["now-date-past", guard(lambda: pendulum.today().date().subtract(years=3, months=2).diff_for_humans(locale="en")), "3 years ago"])
                 res.append(["now-abs", guard(lambda: now.add(days=400).diff_for_humans(absolute=True, locale="en")), "1 year"])
                 out.append(res)
+            elif fn in ("session", "default_locale"):
+                BAD = {"none": None, "int": 7, "bytes": b"fr", "list": ["fr"]}
+
+                def render(op, kw):
+                    """kw is {} (no locale argument at all) or {"locale": name}"""
+                    k = op[0]
+                    if k == "fmt":
+                        _, _loc, rec, inv, now, ab = op
+                        return guard(lambda: pendulum.format_diff(D(rec, inv), bool(now), bool(ab), **kw))
+                    if k == "words":
+                        _, _loc, rec, us, sep, which = op
+                        cls = Duration if which == "D" else Interval
+                        return guard(lambda: cls.in_words(D(rec, 0, us), separator=sep, **kw))
+                    if k == "tok":
+                        _, _loc, ti, year, month, day, hour = op
+                        return guard(lambda: pendulum.datetime(year, month, day, hour, 7, 9).format(TOKENS[ti], **kw))
+                    if k == "dfh":
+                        _, _loc, kind, st, span, zone, swap, ab = op
+                        x = pendulum.datetime(*st, tz="UTC").in_timezone(zone)
+                        y = x.add(seconds=span)
+                        if swap:
+                            x, y = y, x
+                        if kind == "date":
+                            x, y = x.date(), y.date()
+                        elif kind == "time":
+                            x, y = x.time(), y.time()
+                        d = x.diff(y)
+                        return [guard(lambda: x.diff_for_humans(y, absolute=bool(ab), **kw)), comps(d), int(d.invert), int(x > y)]
+                    if k == "str":
+                        y_, mo, w, dd, h, mi, sec = op[1]
+                        d = pendulum.duration(years=y_, months=mo, weeks=w, days=dd, hours=h, minutes=mi, seconds=sec)
+                        if kw:
+                            return [guard(lambda: d.in_words(**kw)), comps(d), d.microseconds]
+                        return [guard(lambda: str(d)), comps(d), d.microseconds]
+                    raise ValueError(k)
+
+                old = pendulum.get_locale()
+                try:
+                    res = [0]
+                    if fn == "default_locale":
+                        for op in a[0]:
+                            got = render(op, {})
+                            cur = pendulum.get_locale()
+                            want = render(op, {"locale": cur})
+                            g0 = got[0] if isinstance(got, list) else got
+                            ok = got == want and isinstance(g0, str) and g0 != "" and not g0.startswith("!")
+                            res.append([1] if ok else [0, got, want, cur if isinstance(cur, str) else repr(cur)])
+                    else:
+                        for op in a[0]:
+                            k = op[0]
+                            if k == "set":
+                                res.append(guard(lambda: "" if pendulum.set_locale(op[1]) is None else "!nonNone"))
+                            elif k == "setbad":
+                                res.append(guard(lambda: "" if pendulum.set_locale(BAD[op[1]]) is None else "!nonNone"))
+                            elif k == "get":
+                                res.append(guard(lambda: pendulum.get_locale()))
+                            elif k == "load":
+                                res.append(guard(lambda: pendulum.locale(op[1])._locale))
+                            else:
+                                res.append(render(op, {} if op[1] is None or k == "str" else {"locale": op[1]}))
+                    out.append(res)
+                finally:
+                    # leave the process as it was found (also when the configuration found cannot be set again: that is for the case to report)
+                    try:
+                        pendulum.set_locale(old)
+                    except Exception:  # noqa
+                        pendulum._LOCALE = old
             else:
                 out.append([9])
         except Exception as e:  # noqa
@@ -375,11 +602,124 @@ def model_calls(c, backend):
             calls += [("token", [li, t, m, dow, 1 + k, hour]) for t in range(len(TOKENS))]
         calls += [("date_format", [li, i]) for i in range(len(DATE_FORMATS))]
         return calls
+    if fn == "session":
+        code, n = _session_code(a[0])
+        return [("session", [k] + code) for k in range(n)]
+    if fn == "instants":
+        li, loc, items = a
+        rs = int(backend == "rs")
+        calls = []
+        for it in items:
+            x, y = _operands(it)
+            ab = _enc_operand(x) + _enc_operand(y)
+            calls += [("diff_comps", [rs] + ab), ("dfh", [li, rs, it[4]] + ab)]
+        return calls
     return None
+
+
+def _std_tz(z):
+    import datetime
+    import zoneinfo
+    if isinstance(z, int):
+        return datetime.timezone(datetime.timedelta(seconds=z))
+    return zoneinfo.ZoneInfo(z)
+
+
+def _tz_name(z):
+    """what _get_tzinfo_name / get_tz_name find on the pendulum tzinfo: Timezone.name, FixedTimezone.name = +HH:MM"""
+    if isinstance(z, int):
+        a = abs(z)
+        return f"{'-' if z < 0 else '+'}{a // 3600:02d}:{a % 3600 // 60:02d}"
+    return z
+
+
+def _operands(it):
+    """(instance, reference) of one `instants` item, computed with datetime + zoneinfo only: each is a dict with the wall fields, the UTC
+    offset, the fold, the offset of the same wall time read with fold 0, the zone and the instant in seconds"""
+    import datetime
+    st, span, zone, swap, ab = it[:5]
+    zone2 = it[5] if len(it) > 5 else zone
+    u = datetime.datetime(*st, tzinfo=datetime.timezone.utc)
+    ops = []
+    for t, z in ((u, zone), (u + datetime.timedelta(seconds=span), zone2)):
+        loc = t.astimezone(_std_tz(z))
+        ops.append({"f": [loc.year, loc.month, loc.day, loc.hour, loc.minute, loc.second], "off": int(loc.utcoffset().total_seconds()), "fold": loc.fold,
+                    "off0": int(loc.replace(fold=0).utcoffset().total_seconds()), "zone": z, "t": int((t - datetime.datetime(1970, 1, 1, tzinfo=datetime.timezone.utc)).total_seconds())})
+    if swap:
+        ops.reverse()
+    return ops
+
+
+def _name_id(n):
+    import zlib
+    return zlib.crc32(n.encode()) % 10 ** 9 + 1
+
+
+def _enc_operand(o):
+    n = _name_id(_tz_name(o["zone"]))
+    return o["f"] + [0, o["off"], 1, n, n, 1, o["off0"]]       # one tzinfo object per zone name (pendulum.timezone caches both kinds)
+
+
+def _enc_str(x):
+    return [len(x)] + [ord(ch) for ch in x]
+
+
+def _enc_loc(x):
+    return [0] if x is None else [1] + _enc_str(x)
+
+
+def _session_code(ops):
+    """the modelled operations of a session as the integer list Model/DispatchC18.v decodes (the others — real DateTime/Date/Time/Duration
+    objects, set_locale of a non-str — neither change the model's state nor have a model output), and their number"""
+    code, n = [], 0
+    for op in ops:
+        k = op[0]
+        if k == "set":
+            code += [1] + _enc_str(op[1])
+        elif k == "get":
+            code += [2]
+        elif k == "load":
+            code += [3] + _enc_str(op[1])
+        elif k == "fmt":
+            _, loc, rec, inv, now, ab = op
+            code += [4] + _enc_loc(loc) + list(rec) + [inv, now, ab]
+        elif k == "words":
+            _, loc, rec, us, sep, which = op
+            code += [5] + _enc_loc(loc) + list(rec) + [us] + _enc_str(sep)
+        elif k == "tok":
+            _, loc, ti, year, month, day, hour = op
+            code += [6] + _enc_loc(loc) + [ti, month, _weekday(year, month, day), day, hour]
+        else:
+            continue
+        n += 1
+    return code, n
+
+
+MODELLED_OPS = ("set", "get", "load", "fmt", "words", "tok")
 
 
 def model_result(c, backend, outs):
     fn = c["fn"]
+    if fn == "instants":
+        r = [0]
+        for i in range(0, len(outs), 2):
+            c_, p_ = outs[i], outs[i + 1]
+            if c_ == [3] or p_ == [3]:
+                r.append(None)
+            elif c_[0] != 0:
+                r.append(["!" + EXN.get(c_[1], f"exn{c_[1]}"), None, None])
+            else:
+                r.append([_dec(p_), c_[1:8], c_[8]])
+        return r
+    if fn == "session":
+        r, k = [0], 0
+        for op in c["args"][0]:
+            if op[0] in MODELLED_OPS:
+                r.append(_dec(outs[k]))
+                k += 1
+            else:
+                r.append(None)
+        return r
     if fn == "words_batch":
         r = [0]
         for o in outs:
@@ -398,8 +738,11 @@ def model_result(c, backend, outs):
 
 
 def same(c, m, r):
-    if c["fn"] == "tokens":
+    if c["fn"] in ("tokens", "session"):
         return len(m) == len(r) and all(x is None or x == y for x, y in zip(m, r))
+    if c["fn"] == "instants":
+        # model: [phrase, components, invert] of DateTime.diff_for_humans(other) / DateTime.diff(other); None = outside the model's domain
+        return len(m) == len(r) and all(x is None or (i == 0 and x == y) or (i > 0 and x == [y[0], y[2], y[3]]) for i, (x, y) in enumerate(zip(m, r)))
     return m == r
 
 
@@ -479,7 +822,105 @@ def _check_phrase(loc, r, inv, now, ab, s):
     return None
 
 
-def _failures(c, r):
+def _check_token(loc, tok, year, m, day, hour, s):
+    """None or a reason; s is what dt.format(tok, locale=loc) returned for year-m-day hour:07:09"""
+    data = locale_data(loc)
+    dow = _weekday(year, m, day)
+    if s.startswith("!"):
+        return f"raised {s[1:]}"
+    if s == "":
+        return "empty"
+    why = None
+    tr = data["translations"]
+    exp = {"MMM": lambda: tr["months"]["abbreviated"][m], "MMMM": lambda: tr["months"]["wide"][m], "dd": lambda: tr["days"]["short"][dow],
+           "ddd": lambda: tr["days"]["abbreviated"][dow], "dddd": lambda: tr["days"]["wide"][dow],
+           "A": lambda: tr["day_periods"]["pm" if hour >= 12 else "am"]}.get(tok)
+    if exp is not None and s != exp():
+        why = f"{s!r} is not the locale's entry {exp()!r}"
+    if tok in ("Do", "Mo", "do", "eo", "e") and not s[0].isdigit():
+        why = f"{s!r} does not start with the number"
+    if tok == "Do" and not s.startswith(str(day)):
+        why = f"{s!r} is not day {day}"
+    if tok in ("e", "eo"):
+        fd = _get(tr, "week_data", "first_day")
+        if isinstance(fd, int):
+            e = (dow % 7 - fd) % 7
+            if (tok == "e" and s != str(e)) or (tok == "eo" and not s.startswith(str(e + 1))):
+                why = f"{s!r} is not the day of the localized week ({e})"
+    if tok in DATE_FORMATS and tok not in ("LT", "LTS") and str(year) not in s and str(year % 100) not in s:
+        why = f"{s!r} lacks the year"
+    return why
+
+
+def _check_session(ops, res):
+    """The property over a history of the process: the configured locale is the name given to the last set_locale call that returned; a call
+    that is rejected (unknown name, not a str) raises and changes nothing; every rendering call without a locale argument renders in the
+    configured locale (same checks as everywhere else, against that locale's own data), with one in the locale given."""
+    shipped = set(locale_names())
+    cur, out = None, []
+    if len(res) != len(ops):
+        return [f"harness: {len(res)} results for {len(ops)} operations"]
+    for i, (op, s) in enumerate(zip(ops, res)):
+        k = op[0]
+        hist = f"after {[o[:2] for o in ops[:i] if o[0] in ('set', 'setbad', 'load')]}"
+        if k == "set":
+            ok = _norm_name(op[1]) in shipped
+            if ok:
+                if s != "":
+                    out.append(f"set_locale({op[1]!r}) {hist}: {s!r} (a shipped locale must be accepted)")
+                cur = op[1]
+            elif s != "!ValueError":
+                out.append(f"set_locale({op[1]!r}) {hist}: {s!r}, expected ValueError (not a shipped locale)")
+        elif k == "setbad":
+            if not s.startswith("!"):
+                out.append(f"set_locale(<{op[1]}>) {hist} was accepted")
+        elif k == "get":
+            if cur is not None and s != cur:
+                out.append(f"get_locale() {hist} is {s!r}; the last set_locale call that succeeded set {cur!r}")
+        elif k == "load":
+            want = _norm_name(op[1]) if _norm_name(op[1]) in shipped else "!ValueError"
+            if s != want:
+                out.append(f"pendulum.locale({op[1]!r}) {hist}: {s!r}, expected {want!r}")
+        else:
+            name = op[1] if (k != "str" and op[1] is not None) else cur
+            if name is None:
+                continue
+            how = f"locale={op[1]!r}" if (k != "str" and op[1] is not None) else f"no locale argument, configured locale {cur!r}"
+            got = s[0] if isinstance(s, list) else s
+            loc = _norm_name(name)
+            if loc not in shipped:
+                if got != "!ValueError":
+                    out.append(f"{op} ({how}) {hist}: {got!r}, expected ValueError")
+                continue
+            if k == "fmt":
+                _, _l, rec, inv, now, ab = op
+                if any(x < 0 for x in rec):
+                    why = f"raised {got[1:]}" if got.startswith("!") else ("empty" if not got else None)
+                else:
+                    why = _check_phrase(loc, rec, inv, now, ab, got)
+            elif k == "words":
+                _, _l, rec, us, sep, which = op
+                why = _check_words(loc, list(rec) + [us], sep, got)
+            elif k == "tok":
+                _, _l, ti, year, month, day, hour = op
+                why = _check_token(loc, TOKENS[ti], year, month, day, hour, got)
+            elif k == "dfh":
+                _, _l, kind, st, span, zone, swap, ab = op
+                _g, cs, inv, later = s
+                why = _check_phrase(loc, cs, later, 0, ab, got)
+                if why is None and inv != later:
+                    why = f"invert={inv} but instance > reference is {bool(later)}"
+            elif k == "str":
+                _g, cs, us = s
+                why = _check_words(loc, cs + [us if not any(cs) else 0], " ", got)
+            else:
+                why = f"harness: unknown operation {k}"
+            if why:
+                out.append(f"{op} ({how}) {hist}: {why}")
+    return out
+
+
+def _failures(c, r, backend=None):
     """list of (class id or None, text)"""
     fn, a = c["fn"], c["args"]
     f = []
@@ -531,46 +972,35 @@ def _failures(c, r):
                 f.append((None, f"{loc}: ordinalize({n}) = {oz!r}"))
     elif fn == "tokens":
         li, loc, year = a
-        data = locale_data(loc)
         toks = TOKENS + DATE_FORMATS
         k = 1
         for m, kk, hour in _token_points():
-            dow = _weekday(year, m, 1 + kk)
             for tok in toks:
                 s = r[k]
                 k += 1
-                why = None
-                if s.startswith("!"):
-                    why = f"raised {s[1:]}"
-                elif s == "":
-                    why = "empty"
-                else:
-                    tr = data["translations"]
-                    exp = {"MMM": lambda: tr["months"]["abbreviated"][m], "MMMM": lambda: tr["months"]["wide"][m], "dd": lambda: tr["days"]["short"][dow],
-                           "ddd": lambda: tr["days"]["abbreviated"][dow], "dddd": lambda: tr["days"]["wide"][dow],
-                           "A": lambda: tr["day_periods"]["pm" if hour >= 12 else "am"]}.get(tok)
-                    if exp is not None and s != exp():
-                        why = f"{s!r} is not the locale's entry {exp()!r}"
-                    if tok in ("Do", "Mo", "do", "eo", "e") and not s[0].isdigit():
-                        why = f"{s!r} does not start with the number"
-                    if tok == "Do" and not s.startswith(str(1 + kk)):
-                        why = f"{s!r} is not day {1 + kk}"
-                    if tok in ("e", "eo"):
-                        fd = _get(tr, "week_data", "first_day")
-                        if isinstance(fd, int):
-                            e = (dow % 7 - fd) % 7
-                            if (tok == "e" and s != str(e)) or (tok == "eo" and not s.startswith(str(e + 1))):
-                                why = f"{s!r} is not the day of the localized week ({e})"
-                    if tok in DATE_FORMATS and tok not in ("LT", "LTS") and str(year) not in s and str(year % 100) not in s:
-                        why = f"{s!r} lacks the year"
+                why = _check_token(loc, tok, year, m, 1 + kk, hour, s)
                 if why:
                     cls = "nl-week-data" if (loc == "nl" and tok in ("e", "eo") and s == "!TypeError") else None
                     f.append((cls, f"format({tok!r}, locale={loc!r}) on {year}-{m}-{1 + kk}: {why}"))
+    elif fn == "session":
+        for why in _check_session(a[0], r[1:]):
+            f.append((None, why))
+    elif fn == "default_locale":
+        for it, res in zip(a[0], r[1:]):
+            if res != [1]:
+                f.append((None, f"{it} without a locale argument gives {res[1]!r}, with locale=get_locale() (= {res[3]!r}) it gives {res[2]!r}: "
+                                "the call does not render with the configured locale"))
     elif fn == "instants":
         li, loc, items = a
         for it, res in zip(items, r[1:]):
-            for why in _check_instants(loc, it, res):
+            reg = None
+            for part, why in _check_instants(loc, it, res):
                 cls = "zh-time-placeholder" if (loc == "zh" and not it[4] and "raised KeyError" in why) else None
+                if cls is None and part == "dt":
+                    # a listed finding is recognised by the call site (DateTime.diff / diff_for_humans(other)) and the region of the input
+                    reg = reg or _region(it) or "-"
+                    if reg != "-" and (reg != "rs-cross-zone-shift" or backend == "rs"):
+                        cls = reg
                 f.append((cls, f"{loc} {it}: {why}"))
     elif fn == "durations":
         li, loc, durs = a
@@ -625,53 +1055,132 @@ def _add_months(dt, n):
     return dt.replace(year=y, month=m, day=min(dt.day, calendar.monthrange(y, m)[1]))
 
 
+def _dim(y, m):
+    import calendar
+    return calendar.monthrange(y, m)[1]
+
+
+def _rs_shift_irregular(x, y):
+    """Region of listed finding rs-cross-zone-shift (C06), as a predicate on the two operands: the compiled precise_diff subtracts the UTC
+    offset from (hour, minute, second, day) by hand — truncating division, carries tested with `> 60` / `> 24`, the day moved without any
+    month carry — whenever the zone names differ (and the offset is not 0) or both operands fall on the same local date; the region is where
+    that leaves second 60, minute 60, hour 24, day 0 or a day past the end of the month.  The offsets are those of the fold-less natives."""
+    same = _tz_name(x["zone"]) == _tz_name(y["zone"])
+    td0 = x["f"][:3] == y["f"][:3]
+
+    def tq(a, b):
+        q = abs(a) // b
+        return q if a >= 0 else -q
+    for op in (x, y):
+        off = op["off0"]
+        if off == 0 or not ((not same) or td0):
+            continue
+        yy, mo, dd, hh, mm, ss = op["f"]
+        hh -= tq(off, 3600)
+        off -= tq(off, 3600) * 3600
+        mm -= tq(off, 60)
+        off -= tq(off, 60) * 60
+        ss -= off
+        if ss < 0:
+            ss += 60; mm -= 1
+        elif ss > 60:
+            ss -= 60; mm += 1
+        if mm < 0:
+            mm += 60; hh -= 1
+        elif mm > 60:
+            mm -= 60; hh += 1
+        if hh < 0:
+            hh += 24; dd -= 1
+        elif hh > 24:
+            hh -= 24; dd += 1
+        if ss == 60 or mm == 60 or hh == 24 or dd < 1 or dd > _dim(yy, mo):
+            return True
+    return False
+
+
+def _region(it):
+    """The listed finding (or None) whose region — a predicate on the INPUT — contains this pair of instants:
+       same-tzinfo-wall-order    both values carry the same zone and their wall-clock order is not the order of the instants (C05);
+       interval-init-drops-fold  one of them is the second occurrence of a repeated wall time;
+       rs-cross-zone-shift       compiled backend only, see _rs_shift_irregular (C06)."""
+    x, y = _operands(it)
+    if _tz_name(x["zone"]) == _tz_name(y["zone"]) and (x["f"] > y["f"]) != (x["t"] > y["t"]):
+        return "same-tzinfo-wall-order"
+    if x["off"] != x["off0"] or y["off"] != y["off0"]:
+        return "interval-init-drops-fold"
+    if _rs_shift_irregular(x, y):
+        return "rs-cross-zone-shift"
+    return None
+
+
 def _check_instants(loc, it, res):
+    """list of (part, reason); part "dt" = DateTime.diff / diff_for_humans(other), the part the listed findings are about"""
     import datetime
-    st, span, zone, swap, ab = it
+    st, span, zone, swap, ab = it[:5]
     s_dt, s_fd, cs, inv, s_date, cs_date, s_time, xw, yw, s_words, s_words_duck = res
+    X, Y = _operands(it)
+    cross = _tz_name(X["zone"]) != _tz_name(Y["zone"])
     out = []
+    for nm, got, op in (("instance", xw, X), ("reference", yw, Y)):
+        # (fold is compared only where it selects the offset; pendulum marks unambiguous values fold=1 or 0 depending on how they were made)
+        if got[:7] != op["f"] + [op["off"]] or (op["off"] != op["off0"] and got[7] != op["fold"]):
+            out.append(("operands", f"the {nm} is {got} (fields, offset, fold), zoneinfo says {op['f'] + [op['off'], op['fold']]}"))
     # direction: the instance is x, the reference y; x later than y <=> future marker
     x_later = bool(swap) and span > 0
     if bool(inv) != x_later:
-        out.append(f"invert={inv} but instance {'later' if x_later else 'not later'} than reference")
+        out.append(("dt", f"invert={inv} but instance {'later' if x_later else 'not later'} than reference"))
     if s_dt != s_fd:
-        out.append(f"diff_for_humans(other) {s_dt!r} differs from format_diff on its own difference {s_fd!r}")
+        out.append(("dt", f"diff_for_humans(other) {s_dt!r} differs from format_diff on its own difference {s_fd!r}"))
     why = _check_phrase(loc, cs, int(x_later), 0, ab, s_dt)
     if why:
-        out.append("diff_for_humans(other): " + why)
-    # magnitude: within one unit of the true elapsed time (UTC instants; wall clock for calendar units)
+        out.append(("dt", "diff_for_humans(other): " + why))
+    # magnitude.  Values in different zones, or on one local date, are compared in UTC; so are values with equal offsets in effect: below 28 days
+    # the difference then has no calendar part and its components ARE the elapsed time, so the phrase is the documented rounding of it
+    if span < 28 * 86400 and (cross or X["f"][:3] == Y["f"][:3] or X["off"] == Y["off"]):
+        dd = span // 86400
+        true = [0, 0, dd // 7, dd % 7, span // 3600 % 24, span // 60 % 60, span % 60]
+        if cs != true:
+            out.append(("dt", f"components {cs} of the difference are not the elapsed time {true} ({span} s)"))
+        why = _check_phrase(loc, true, int(x_later), 0, ab, s_dt)
+        if why:
+            out.append(("dt", f"diff_for_humans(other) for {span} s elapsed: " + why))
+    # within one unit of the true elapsed time (UTC instants; wall clock for calendar units)
     unit, count = _expected(cs)
     length = {"second": 1, "minute": 60, "hour": 3600, "day": 86400, "week": 7 * 86400}
     if unit == "few":
         if not span <= 10:
-            out.append(f"'a few seconds' for {span} s")
+            out.append(("dt", f"'a few seconds' for {span} s"))
     elif unit in length:
-        if not abs(count * length[unit] - span) < length[unit] + (3600 if unit in ("day", "week") and zone != "UTC" else 0):
-            out.append(f"{count} {unit}(s) is not within one {unit} of {span} s")
+        if not abs(count * length[unit] - span) < length[unit] + (3600 if unit in ("day", "week") and zone != "UTC" and not cross else 0):
+            out.append(("dt", f"{count} {unit}(s) is not within one {unit} of {span} s"))
     else:
-        a = datetime.datetime(*xw[:6])
-        b = datetime.datetime(*yw[:6])
+        if cross:
+            a = datetime.datetime(*X["f"]) - datetime.timedelta(seconds=X["off"])
+            b = datetime.datetime(*Y["f"]) - datetime.timedelta(seconds=Y["off"])
+        else:
+            a = datetime.datetime(*xw[:6])
+            b = datetime.datetime(*yw[:6])
         lo, hi = min(a, b), max(a, b)
         k = 12 if unit == "year" else 1
         lo_b, hi_b = _add_months(lo, (count - 1) * k), _add_months(lo, (count + 1) * k)
         if lo_b is not None and hi_b is not None and not (lo_b - datetime.timedelta(hours=2) <= hi <= hi_b + datetime.timedelta(hours=2)):
-            out.append(f"{count} {unit}(s) is not within one {unit} of {lo} .. {hi}")
+            out.append(("dt", f"{count} {unit}(s) is not within one {unit} of {lo} .. {hi}"))
     # Date and Time flavours: total, directed
     da, db = datetime.date(*xw[:3]), datetime.date(*yw[:3])
     why = _check_phrase(loc, cs_date, int(da > db), 0, ab, s_date)
     if why:
-        out.append("Date.diff_for_humans(other): " + why)
+        out.append(("date", "Date.diff_for_humans(other): " + why))
     ta, tb = xw[3] * 3600 + xw[4] * 60 + xw[5], yw[3] * 3600 + yw[4] * 60 + yw[5]
     d = abs(ta - tb)
     rec = [0, 0, 0, 0, d // 3600, d // 60 % 60, d % 60]
     why = _check_phrase(loc, rec, int(ta > tb), 0, ab, s_time)
     if why:
-        out.append("Time.diff_for_humans(other): " + why)
+        out.append(("time", "Time.diff_for_humans(other): " + why))
     if s_words != s_words_duck:
-        out.append(f"Interval.in_words {s_words!r} differs from in_words on its own components {s_words_duck!r}")
+        out.append(("words", f"Interval.in_words {s_words!r} differs from in_words on its own components {s_words_duck!r}"))
     why = _check_words(loc, cs + [0], " ", s_words) if any(cs) else (None if s_words and not s_words.startswith("!") and "{" not in s_words else f"bad {s_words!r}")
     if why:
-        out.append("Interval.in_words: " + why)
+        out.append(("words", "Interval.in_words: " + why))
     return out
 
 
@@ -710,7 +1219,7 @@ def _check_duration(loc, du, res):
 
 
 def oracle(c, backend, r):
-    f = _failures(c, r)
+    f = _failures(c, r, backend)
     if not f:
         return None
     unk = [t for k, t in f if k is None]
@@ -718,7 +1227,7 @@ def oracle(c, backend, r):
 
 
 def known(c, backend, r):
-    f = _failures(c, r)
+    f = _failures(c, r, backend)
     kinds = {k for k, _ in f}
     if len(kinds) == 1 and None not in kinds:
         return kinds.pop()
